@@ -192,12 +192,11 @@ theorem roundtrip_single (dt : Option Str) (n : Str) (a : AttrState) (sc : Bool)
         exact ih d0 (fun t' ht' => hall t' (List.mem_cons_of_mem _ ht'))
     have hno : ∀ t ∈ (LNode.elem n a sc kids).toks, ∀ x, t ≠ .decl x ∧ t ≠ .unknownDecl x := by
       intro t ht x
-      have hT := (ListOK.tokOK hok) t (List.mem_append_right _ ht)
       constructor
       · intro e; subst e
         -- a declaration among the element's tokens would have to be a text-like token of the tree: it is not
         exact decl_not_in _ hwf x ht
-      · intro e; subst e; exact absurd hT (by simp [TokOK])
+      · intro e; subst e; exact ListOK.no_unknownDecl hok x (List.mem_append_right _ ht)
     rw [hnd _ _ hno]
 
 /-! #### C01b — the second serialisation is identical -/
@@ -293,7 +292,7 @@ theorem roundtrip_multi (ks : List LNode) (hwf : WFLL ks) (hok : ToksOK (toksL k
       · subst e; simp
       · constructor
         · intro e; subst e; exact decl_not_inL ks hwf x ht
-        · intro e; subst e; exact absurd ((ListOK.tokOK hok) _ ht) (by simp [TokOK])
+        · intro e; subst e; exact ListOK.no_unknownDecl hok x ht
       · rcases e with e | e
         · subst e; simp
         · simp at e
